@@ -18,16 +18,6 @@ Definition crt_inv (m r : Z) (done : list (Z * Z)) : Prop :=
   0 < m /\ solves r done /\ Forall (fun rm => (snd rm | m)) done /\
   (forall x, solves x done -> cong m x r) /\ m = lcm_list (map snd done).
 
-Definition crt_post (o : res (option Z)) (reduced : Prop) (sys : list (Z * Z)) : Prop :=
-  match o with
-  | Ok (Some x) =>
-      solves x sys /\
-      (forall y, solves y sys -> cong (lcm_list (map snd sys)) y x) /\
-      (reduced -> 0 <= x < lcm_list (map snd sys))
-  | Ok None => forall x, ~ solves x sys
-  | _ => False
-  end.
-
 Lemma quot_exact t g : g <> 0 -> (g | t) -> t = g * Z.quot t g.
 Proof.
   intros Hg (k & ->). rewrite Z.quot_mul by assumption. ring.
